@@ -10,7 +10,9 @@ from hdl21.bundle import BundleInstance, AnonymousBundle, BundleRef
 INST_CLASSES = (Instance, InstanceArray, InstanceBundle)
 CONNECTABLES = (Signal, Slice, Concat, NoConn, PortRef, BundleInstance, AnonymousBundle, BundleRef)
 
+from hdl21.module import Module as _Module
 FIELD_CLASSES = {
+    "_parent_module": (_Module,), "Module._elaborated": (_Module,),
     "_refs": (Refs,), "inst": INST_CLASSES, "conns[]": CONNECTABLES,
     "all[]": (PortRef,), "portrefs[]": (PortRef,), "connrefs[]": (PortRef,),
 }
@@ -155,10 +157,16 @@ class GetPortRef(GetRefContract):
     which = "portrefs"
 
 
+def frozen(st0, self_z):
+    """the instance sits in a module that has been elaborated (frozen): its connections can no longer change"""
+    parent = st0.heap.get("_parent_module", self_z)
+    return z3.And(parent != NULL, st0.heap.get("Module._elaborated", parent) != NULL)
+
+
 class ReplaceContract(_InstBase):
     key = "hdl21.instance:_Instance.replace"
-    props = ("C04",)
-    raises = (KeyError,)
+    props = ("C04", "C06", "C07")
+    raises = (KeyError, RuntimeError)
     returns = "ref"
     result_classes = CONNECTABLES
 
@@ -186,9 +194,11 @@ class ReplaceContract(_InstBase):
 
     posts = property(lambda self: [("view", self.p_view), ("inv", self.p_inv), ("refs-frame", self.p_refs)])
     reasons = property(lambda self: {KeyError: lambda eng, st0, a:
-                                     st0.heap.get("conns", a.self.z)[zstr(a.portname)] == NULL})
+                                     st0.heap.get("conns", a.self.z)[zstr(a.portname)] == NULL,
+                                     RuntimeError: lambda eng, st0, a: frozen(st0, a.self.z)})
     must_raise = property(lambda self: [("not-connected", lambda eng, st0, a:
-                                         st0.heap.get("conns", a.self.z)[zstr(a.portname)] == NULL)])
+                                         st0.heap.get("conns", a.self.z)[zstr(a.portname)] == NULL),
+                                        ("frozen", lambda eng, st0, a: frozen(st0, a.self.z))])
 
     def x_unchanged(self, eng, st0, st, a, E):
         return z3.And(st.heap.arr("conns") == st0.heap.arr("conns"),
@@ -199,8 +209,8 @@ class ReplaceContract(_InstBase):
 
 class ConnectContract(_InstBase):
     key = "hdl21.instance:_Instance.connect"
-    props = ("C04",)
-    raises = (TypeError,)
+    props = ("C04", "C06", "C07")
+    raises = (TypeError, RuntimeError)
     returns = "ref"
     result_classes = INST_CLASSES
 
@@ -235,8 +245,10 @@ class ConnectContract(_InstBase):
         return z3.And(inv_conn(st), inv_refs(st))
 
     posts = property(lambda self: [("view", self.p_view), ("inv", self.p_inv)])
-    reasons = property(lambda self: {TypeError: lambda eng, st0, a: not self._connectable(eng, st0, a)})
-    must_raise = property(lambda self: [("non-connectable", lambda eng, st0, a: not self._connectable(eng, st0, a))])
+    reasons = property(lambda self: {TypeError: lambda eng, st0, a: not self._connectable(eng, st0, a),
+                                     RuntimeError: lambda eng, st0, a: frozen(st0, a.self.z)})
+    must_raise = property(lambda self: [("non-connectable", lambda eng, st0, a: not self._connectable(eng, st0, a)),
+                                        ("frozen", lambda eng, st0, a: frozen(st0, a.self.z))])
     xposts = property(lambda self: [("unchanged", lambda eng, st0, st, a, E: z3.And(
         st.heap.arr("conns") == st0.heap.arr("conns"),
         st.heap.arr("_connected_ports") == st0.heap.arr("_connected_ports")))])
@@ -244,8 +256,8 @@ class ConnectContract(_InstBase):
 
 class DisconnectContract(_InstBase):
     key = "hdl21.instance:_Instance.disconnect"
-    props = ("C04",)
-    raises = (KeyError,)
+    props = ("C04", "C06", "C07")
+    raises = (KeyError, RuntimeError)
     returns = "ref"
     result_classes = CONNECTABLES
 
@@ -267,13 +279,18 @@ class DisconnectContract(_InstBase):
     posts = property(lambda self: [("view", self.p_view),
                                    ("inv", lambda eng, st0, st, a, res: z3.And(inv_conn(st), inv_refs(st)))])
     reasons = property(lambda self: {KeyError: lambda eng, st0, a:
-                                     st0.heap.get("conns", a.self.z)[zstr(a.portname)] == NULL})
+                                     st0.heap.get("conns", a.self.z)[zstr(a.portname)] == NULL,
+                                     RuntimeError: lambda eng, st0, a: frozen(st0, a.self.z)})
     must_raise = property(lambda self: [("not-connected", lambda eng, st0, a:
-                                         st0.heap.get("conns", a.self.z)[zstr(a.portname)] == NULL)])
+                                         st0.heap.get("conns", a.self.z)[zstr(a.portname)] == NULL),
+                                        ("frozen", lambda eng, st0, a: frozen(st0, a.self.z))])
+    xposts = property(lambda self: [("unchanged", lambda eng, st0, st, a, E: z3.And(
+        st.heap.arr("conns") == st0.heap.arr("conns"),
+        st.heap.arr("_connected_ports") == st0.heap.arr("_connected_ports")))])
 
 
 CONTRACTS = [GetConnRef(), GetPortRef(), ReplaceContract(), ConnectContract(), DisconnectContract()]
-INLINE = {"hdl21.connect:is_connectable"}
+INLINE = {"hdl21.connect:is_connectable", "hdl21.instance:_assert_not_frozen"}
 
 
 # ------------------------------------------------------------------------------------------------ establishment
